@@ -179,6 +179,10 @@ def table(t, file_sub):
 
 def check_translation(fx, rep):
     ver, ref, refdir = serde_json_reference(fx)
+    mir_methods = set()
+    for b in fx.crate('zlink_core', 'full').bodies:
+        if not b.in_test and 'json_ser' in b.path and b.kind == 'AssocFn' and b.impl_self:
+            mir_methods.add((norm_self(re.sub(r'^json_ser::', '', b.impl_self)), b.name))
     ours = table(fx.tpl, 'zlink-core/src/json_ser.rs')
     theirs = table(ref, 'src/ser.rs')
     n_same = 0
@@ -214,6 +218,10 @@ def check_translation(fx, rep):
         tr, st, name = key
         if tr in ('trait:Formatter',) or (tr and tr.startswith('ser::') and st in ('Serializer', 'Compound', 'MapKeySerializer')):
             if key not in ours and key not in DEVIATIONS and name not in REFERENCE_ONLY:
+                if (st, name) in mir_methods:
+                    rep.ok('E7', 'E7|%s|%s|%s|macro-generated' % key, 'zlink-core/src/json_ser.rs',
+                           'method exists in the compiled crate but not in the syntax tree (generated by a macro_rules expansion): covered by the MIR rules E3-E5, not by the source comparison', nontrivial=False)
+                    continue
                 rep.bad('E7', 'E7|%s|%s|%s|missing' % key, 'zlink-core/src/json_ser.rs', 'serde_json %s has %s::%s for %s but the port does not' % (ver, tr, name, st))
     rep.floor('E7', 90, 'ported methods compared with serde_json')
     rep.note('reference: serde_json %s at %s; %d methods with identical skeleton' % (ver, refdir, n_same))
